@@ -1106,6 +1106,65 @@ def real_enum_default(values, default, tokens=False):
 
 
 # --------------------------------------------------------------------------
+# the strict parser on the generated class, one attribute  (model: readAttr in lean/XsdataModel/Gen/Attrs.lean)
+# --------------------------------------------------------------------------
+def real_read_attr(sources, givens, doc_of, entry=None):
+    """generate the classes, then parse one document per `given` (None: attribute absent) under
+    fail_on_unknown_attributes: what the field of attribute d0 holds, or "ParserError" """
+    import enum
+
+    import codegen_run as CG
+    from xsdata.exceptions import ParserError
+    from xsdata.formats.dataclass.context import XmlContext
+    from xsdata.formats.dataclass.parsers import XmlParser
+    from xsdata.formats.dataclass.parsers.config import ParserConfig
+
+    g = CG.run_pipeline(sources, entry=entry)
+    try:
+        if g.error is not None:
+            raise g.error
+        import dataclasses
+
+        R = g.classes()["R"]
+        fields = {f.metadata.get("name", f.name): f.name for f in dataclasses.fields(R) if f.metadata.get("type") == "Attribute"}
+        parser = XmlParser(context=XmlContext(), config=ParserConfig(fail_on_unknown_properties=True, fail_on_unknown_attributes=True))
+        out = []
+        for given in givens:
+            try:
+                obj = parser.from_string(doc_of(given), R)
+            except ParserError:
+                out.append("ParserError")
+                continue
+            v = getattr(obj, fields["d0"]) if "d0" in fields else None
+            if isinstance(v, enum.Enum):
+                v = v.value
+            out.append([v])
+        return out
+    finally:
+        g.close()
+
+
+# --------------------------------------------------------------------------
+# type name lookup  (model: lean/XsdataModel/Gen/TypeLookup.lean)
+# --------------------------------------------------------------------------
+def real_find_dependency(tag, cands, target):
+    """ProcessAttributeTypes.find_dependency in a real container that holds one class per candidate tag, all
+    with one qualified name; `target`: the index of the class that owns the attr (None: another class)"""
+    from xsdata.codegen.container import ClassContainer
+    from xsdata.codegen.handlers import ProcessAttributeTypes
+    from xsdata.codegen.models import AttrType, Class
+    from xsdata.models.config import GeneratorConfig
+
+    classes = [Class(qname="{urn:t}n", tag=t, location="mem") for t in cands]
+    other = Class(qname="{urn:t}owner", tag="Element", location="mem")
+    container = ClassContainer(GeneratorConfig())
+    container.extend(classes + [other])
+    owner = classes[target] if target is not None else other
+    res = ProcessAttributeTypes(container).find_dependency(owner, AttrType(qname="{urn:t}n"), tag)
+    return None if res is None else next(i for i, c in enumerate(classes) if c is res)
+
+
+# --------------------------------------------------------------------------
 # real sites
 # --------------------------------------------------------------------------
 def renumber(sites):
